@@ -41,6 +41,9 @@ def render_convobj(c, x, obs):
         if obs[0] == 'ok':
             o = f'(COk {val_to_coq(obs[1])})'
         elif obs[0] == 'error':
+            xs = val_to_coq(x)
+            if 'VSet' in xs or 'VFrozenSet' in xs:
+                return None     # the tree records the serialised data, and a serialised set is a list in hash order
             o = f'(CErr {tree_to_coq(obs[1].tree)})'
         else:
             o = f'(CThrow {exn_to_coq(obs[1])})'
